@@ -149,28 +149,53 @@ fn build(case: &Value, k: usize, idx: usize) -> Machine {
                 Trans(to, pick(&f32s(t["p"].as_str().unwrap()), k))
             })
             .collect();
-        let mut s0 = State::new(enum_map! { Event::NormalSent => vec.clone(), _ => vec![] });
+        // the context of the judged field (Validation.tla `ctx`): validity is compositional, so the
+        // verdict may not depend on what else the machine carries or where the state sits
+        let ctx = case["ctx"].as_str().unwrap_or("bare");
+        let full = ctx == "full";
+        let events: Vec<Event> = Event::iter().copied().collect();
+        // the event that carries the judged vector rotates over all 13 kinds
+        let carrier = if ctx == "bare" { Event::NormalSent } else { events[(idx * 3 + k) % events.len()] };
+        let other = vec![Trans(0, 0.5), Trans(STATE_END, 0.25)];
+        let mut s0 = State::new(enum_map! { e => if e == carrier { vec.clone() } else if full { other.clone() } else { vec![] } });
         let dd = d.unwrap_or(ok);
+        let lim = if full { Some(ok) } else { None };
         s0.action = Some(match dpos {
-            "pad.limit" => Action::SendPadding { bypass: false, replace: false, timeout: ok, limit: Some(dd) },
-            "block.timeout" => Action::BlockOutgoing { bypass: false, replace: false, timeout: dd, duration: ok, limit: None },
-            "block.duration" => Action::BlockOutgoing { bypass: false, replace: false, timeout: ok, duration: dd, limit: None },
+            "pad.limit" => Action::SendPadding { bypass: full, replace: false, timeout: ok, limit: Some(dd) },
+            "block.timeout" => Action::BlockOutgoing { bypass: false, replace: full, timeout: dd, duration: ok, limit: lim },
+            "block.duration" => Action::BlockOutgoing { bypass: full, replace: false, timeout: ok, duration: dd, limit: lim },
             "block.limit" => Action::BlockOutgoing { bypass: false, replace: false, timeout: ok, duration: ok, limit: Some(dd) },
-            "timer.duration" => Action::UpdateTimer { replace: false, duration: dd, limit: None },
+            "timer.duration" => Action::UpdateTimer { replace: full, duration: dd, limit: lim },
             "timer.limit" => Action::UpdateTimer { replace: false, duration: ok, limit: Some(dd) },
-            "pad.timeout" => Action::SendPadding { bypass: false, replace: false, timeout: dd, limit: None },
-            _ => Action::SendPadding { bypass: false, replace: false, timeout: ok, limit: None },
+            "pad.timeout" => Action::SendPadding { bypass: false, replace: full, timeout: dd, limit: lim },
+            _ => Action::SendPadding { bypass: false, replace: false, timeout: ok, limit: lim },
         });
+        if full {
+            // both counters present and valid unless one of them is the judged position
+            s0.counter.0 = Some(Counter { operation: Operation::Decrement, dist: if k == 1 { None } else { Some(ok) }, copy: k == 1 });
+            s0.counter.1 = Some(Counter { operation: Operation::Increment, dist: Some(ok), copy: false });
+        }
         if dpos == "ctrA" {
             s0.counter.0 = Some(Counter { operation: Operation::Increment, dist: Some(dd), copy: false });
         }
         if dpos == "ctrB" {
             s0.counter.1 = Some(Counter { operation: Operation::Set, dist: Some(dd), copy: false });
         }
-        states.push(s0);
-    }
-    if n >= 2 {
-        states.push(State::new(enum_map! { Event::NormalRecv => vec![Trans(0, 1.0)], _ => vec![] }));
+        let mut filler = State::new(enum_map! { Event::NormalRecv => vec![Trans(0, 1.0)], _ => vec![] });
+        if full {
+            filler.action = Some(Action::UpdateTimer { replace: true, duration: ok, limit: Some(ok) });
+            filler.counter.1 = Some(Counter { operation: Operation::Set, dist: None, copy: true });
+        }
+        if ctx == "last" && n >= 2 {
+            // the judged state is the last one
+            states.push(filler);
+            states.push(s0);
+        } else {
+            states.push(s0);
+            if n >= 2 {
+                states.push(filler);
+            }
+        }
     }
     Machine {
         allowed_padding_packets: 3,
@@ -213,36 +238,53 @@ fn main() {
             }));
             let fw_pad = pick(&f64s(case["fwPad"].as_str().unwrap()), k);
             let fw_blk = pick(&f64s(case["fwBlk"].as_str().unwrap()), k);
-            let mut ran_ok = false;
-            let fw_ok = catch_unwind(AssertUnwindSafe(|| {
-                match Framework::new(vec![m.clone()], fw_pad, fw_blk, Instant::now(), rand::thread_rng()) {
-                    Err(_) => false,
-                    Ok(mut fw) => {
-                        let id = MachineId::from_raw(0);
-                        let evs = [
-                            TriggerEvent::NormalSent,
-                            TriggerEvent::NormalRecv,
-                            TriggerEvent::PaddingSent { machine: id },
-                            TriggerEvent::PaddingRecv,
-                            TriggerEvent::TunnelSent,
-                            TriggerEvent::TunnelRecv,
-                            TriggerEvent::BlockingBegin { machine: id },
-                            TriggerEvent::BlockingEnd,
-                            TriggerEvent::TimerBegin { machine: id },
-                            TriggerEvent::TimerEnd { machine: id },
-                        ];
-                        let r = catch_unwind(AssertUnwindSafe(|| {
-                            for _ in 0..3 {
-                                for e in evs.iter() {
-                                    let _ = fw.trigger_events(&[e.clone()], Instant::now()).count();
+            // the framework part runs in its own thread under a CPU-time budget: an accepted machine that
+            // never returns (a sampler looping on parameters validation should have refused) is data
+            let mc = m.clone();
+            let mut hung = false;
+            let (fw_ok, ran_ok): (std::thread::Result<bool>, bool) = match verif_harness::watchdog::run(move || {
+                let mut ran_ok = false;
+                let fw_ok = catch_unwind(AssertUnwindSafe(|| {
+                    match Framework::new(vec![mc.clone()], fw_pad, fw_blk, Instant::now(), rand::thread_rng()) {
+                        Err(_) => false,
+                        Ok(mut fw) => {
+                            let id = MachineId::from_raw(0);
+                            let evs = [
+                                TriggerEvent::NormalSent,
+                                TriggerEvent::NormalRecv,
+                                TriggerEvent::PaddingSent { machine: id },
+                                TriggerEvent::PaddingRecv,
+                                TriggerEvent::TunnelSent,
+                                TriggerEvent::TunnelRecv,
+                                TriggerEvent::BlockingBegin { machine: id },
+                                TriggerEvent::BlockingEnd,
+                                TriggerEvent::TimerBegin { machine: id },
+                                TriggerEvent::TimerEnd { machine: id },
+                            ];
+                            let r = catch_unwind(AssertUnwindSafe(|| {
+                                for _ in 0..3 {
+                                    for e in evs.iter() {
+                                        let _ = fw.trigger_events(&[e.clone()], Instant::now()).count();
+                                    }
                                 }
-                            }
-                        }));
-                        ran_ok = r.is_ok();
-                        true
+                            }));
+                            ran_ok = r.is_ok();
+                            true
+                        }
                     }
+                }));
+                (fw_ok.map_err(|_| ()), ran_ok)
+            }, std::time::Duration::from_secs(3), std::time::Duration::from_secs(300)) {
+                verif_harness::watchdog::Outcome::Done((r, ran)) => (r.map_err(|_| Box::new(()) as Box<dyn std::any::Any + Send>), ran),
+                verif_harness::watchdog::Outcome::Hang => {
+                    hung = true;
+                    (Ok(true), false)
                 }
-            }));
+                verif_harness::watchdog::Outcome::Starved => {
+                    eprintln!("validate_cases: starved of CPU, nothing can be said");
+                    std::process::exit(2);
+                }
+            };
             let b = |r: std::thread::Result<bool>| r.unwrap_or(false);
             let panicked = validate_ok.is_err() || new_ok.is_err() || fromstr_ok.is_err() || fw_ok.is_err();
             let v = b(validate_ok);
@@ -253,7 +295,7 @@ fn main() {
                 "{}",
                 json!({"k": "case", "id": i, "variant": k, "case": case, "validate_ok": v,
                        "new_ok": b(new_ok), "fromstr_ok": b(fromstr_ok), "fw_ok": b(fw_ok),
-                       "ran_ok": ran_ok, "panicked": panicked})
+                       "ran_ok": ran_ok, "hung": hung, "panicked": panicked})
             )
             .unwrap();
         }
